@@ -202,7 +202,12 @@ pub fn run_ops_probe(c: &OpCase, probe: bool) -> Result<OpsRun, String> {
                     let at = off.map(|ms| if ms >= 0 { drv.now + Duration::from_millis(ms as u64) } else { drv.now - Duration::from_millis((-ms) as u64) });
                     let ok = drv.sender.trigger_transfer_at(run.added[k].toi, at);
                     drv.op(format!("trigger toi={} at={:?} -> {}", run.added[k].toi, off, ok));
-                    if ok {
+                    // documented: no action when the object is being transferred (a transfer is open
+                    // from its StartTransfer to its StopTransfer event)
+                    let toi = run.added[k].toi;
+                    let starts = drv.log.iter().filter(|r| matches!(r.kind, RecKind::Start(t) if t == toi)).count();
+                    let stops = drv.log.iter().filter(|r| matches!(r.kind, RecKind::Stop(t) if t == toi)).count();
+                    if ok && starts == stops {
                         run.added[k].triggers.push((drv.log.len() - 1, drv.now, at));
                     }
                 }
